@@ -146,7 +146,7 @@ def verify_function(repo, qual, con, types, contracts, specfuns=None, timeout_ms
                 E.func_stack.pop()
                 o1 = list(o1) + [(p, ("exc", nm)) for (p, nm) in E.raised]
                 E.raised = []
-                outs.extend((p, o, frame, sctx) for (p, o) in o1)
+                outs.extend((p, o, frame, sctx, cctx) for (p, o) in o1)
             # vacuity guard: the precondition must be satisfiable
             if feasible_starts == 0:
                 fr.obligations.append(dict(name="%s/%svacuity.pre_satisfiable" % (qual, tag), kind="vacuity",
@@ -154,7 +154,33 @@ def verify_function(repo, qual, con, types, contracts, specfuns=None, timeout_ms
                 continue
             fr.paths += len(outs)
             allowed = set(con.get("modifies", []))
-            for (p, o, frame, sctx) in outs:
+            # "epilogue": statements executed (NOT evaluated as contract text) after the function body on every return path, in the
+            # function's frame with `result` bound - a harness that USES the object through its public methods with symbolic
+            # probe arguments (parameters of the contract), so that postconditions can speak about what those calls return
+            # without calling possibly state-changing methods from contract text
+            if con.get("epilogue"):
+                import textwrap
+                body = ast.parse(textwrap.dedent(con["epilogue"])).body
+                outs2 = []
+                for (p, o, frame, sctx, cctx) in outs:
+                    if o[0] not in ("ret", "next"):
+                        outs2.append((p, o, frame, sctx, cctx))
+                        continue
+                    res0 = o[1] if o[0] == "ret" else NONE
+                    d = dict(p.get(frame))
+                    d["result"] = res0
+                    p.put(frame, d)
+                    for (q, o2) in E.exec_block(body, p, cctx, ()):
+                        if o2[0] == "next":
+                            outs2.append((q, ("ret", res0), frame, sctx, cctx))
+                        elif o2[0] == "exc":
+                            outs2.append((q, o2, frame, sctx, cctx))
+                        else:
+                            raise Unsupported("epilogue outcome %r" % (o2,))
+                    outs2.extend((q, ("exc", nm), frame, sctx, cctx) for (q, nm) in E.raised)
+                    E.raised = []
+                outs = outs2
+            for (p, o, frame, sctx, cctx) in outs:
                 if o[0] == "exc":
                     if con.get("noraise", True):
                         E.oblige(p, "%snoraise.%s" % (tag, o[1]), z3.BoolVal(False), "safe", {"detail": "raise %s" % o[1]})
